@@ -162,3 +162,15 @@ func DebugDyn(p *Prog, pat string) {
 		})
 	}
 }
+
+// DebugVTA prints the raw VTA out-edges of functions whose name contains pat.
+func DebugVTA(p *Prog, pat string) {
+	for fn, n := range p.VTA.Nodes {
+		if fn == nil || !strings.Contains(FuncName(fn), pat) {
+			continue
+		}
+		for _, e := range n.Out {
+			fmt.Println(FuncName(fn), "->", FuncName(e.Callee.Func), len(p.VTA.Nodes[e.Callee.Func].Out))
+		}
+	}
+}
